@@ -293,8 +293,9 @@ def scenario(eng, rng, res, cfg):
             yield from build_state(eng, rng, res, cfg)
             if eng.dead:
                 return
-        if rng.random() < 0.3:
-            eng.src_stall_word1 = rng.randint(1, 10)
+        stall = rng.random()
+        if stall < 0.3:
+            eng.src_stall_word1 = rng.randint(1, 10)          # the command word will wait
         t_event = yield from provoke(eng, rng, res, target)
         if target == "random":
             k = rng.randint(0, 60)
@@ -304,9 +305,13 @@ def scenario(eng, rng, res, cfg):
             k = rng.randint(1, 30)
         elif target == "burst":
             k = rng.randint(0, 30)
+        elif rng.random() < 0.7:
+            k = rng.randint(0, 6)                              # dispatch .. framing word .. command word (PHY ready)
         else:
             k = rng.randint(0, 14)
         t_crash = max(b.cycle + 1, t_event + k)
+        if 0.3 <= stall < 0.5 and target not in ("race", "random"):
+            eng.src_hold_until = t_crash + rng.randint(0, 12)  # the framing word will wait until (after) the crash
         yield from crash(eng, rng, res, t_crash, cfg)
     if eng.dead:
         return
